@@ -277,6 +277,12 @@ def resample_melody_series(times, frequencies, voicing, times_new, kind="linear"
         for n, frequency in enumerate(frequencies[1:]):
             if frequency == 0:
                 frequencies_held[n + 1] = frequencies_held[n]
+        # Leading zeros have no previous value to hold: fill them with the first
+        # reported frequency so that they do not leak into higher-order
+        # interpolants (they are masked out again below)
+        reported = np.flatnonzero(frequencies_held)
+        if reported.size > 0:
+            frequencies_held[: reported[0]] = frequencies_held[reported[0]]
         # Linearly interpolate frequencies
         frequencies_resampled = scipy.interpolate.interp1d(
             times, frequencies_held, kind
